@@ -111,6 +111,74 @@ func worldOIDC(w *World) {
 	env := w.newLcEnv(scfg, "", PeerOpts{Server: "10.0.0.1:7000", Mux: tcpMux, Token: "", RawKeys: true, LoginKey: good("alice")})
 	env.start()
 
+	// expiryAttack: a token that is valid, and accepted in heartbeats, for a few seconds - and then keeps being presented
+	adv := 0
+	expiryAttack := func() {
+		if skipExp || !(scopeHB || scopeWC) {
+			return
+		}
+		w.Check("C04.expired-token-stops-working")
+		life := time.Duration(r.Range(3, 8)) * time.Second
+		cl := claims("mallory")
+		cl["exp"] = now() + int64(life/time.Second)
+		tok := p.mint(cl, p.key, "ES256")
+		expiresAt := w.Net.Now() + life
+		c := env.newClient(fmt.Sprintf("adv%d", adv), 0)
+		c.Opts.LoginKey = tok
+		if rr, err := c.login(""); err != nil || mstr(rr, "error") != "" {
+			return
+		}
+		if scopeWC {
+			// while it is valid the token also opens a work connection
+			if pre, err := c.OfferWorkConn(c.RunID, true, tok); err == nil {
+				defer pre.Close()
+			}
+		}
+		stop := make(chan struct{})
+		c.Node.Go(func() {
+			for {
+				select {
+				case <-stop:
+					return
+				case <-time.After(500 * time.Millisecond):
+					if c.IsClosed() {
+						return
+					}
+					c.Ping(true, tok)
+				}
+			}
+		})
+		time.Sleep(expiresAt - w.Net.Now() + 1500*time.Millisecond)
+		if scopeWC && !c.IsClosed() {
+			if conn, err := c.OfferWorkConn(c.RunID, true, tok); err == nil {
+				st, err := AwaitStart(conn, 3*time.Second)
+				if err == nil && mstr(st, "error") == "" {
+					viol("workconn", "expired-key-accepted", "work connection carrying a token that expired 1.5 s ago (and had been accepted in heartbeats before) was started: %v", st)
+				} else if ne, ok := err.(net.Error); ok && ne.Timeout() {
+					viol("workconn", "expired-key-parked", "NewWorkConns scope on: work connection carrying a token that expired 1.5 s ago was neither refused nor closed")
+				}
+				conn.Close()
+			}
+		}
+		if scopeHB {
+			closed := c.WaitClosed(time.Duration(hbTimeout)*time.Second + 45*time.Second)
+			if !closed {
+				viol("heartbeat", "kept-alive-by-expired-token", "a session whose heartbeats carry a token that expired %v ago is still alive (heartbeatTimeout %ds)", w.Net.Now()-expiresAt, hbTimeout)
+			}
+		}
+		close(stop)
+		c.Drop()
+	}
+	if !skipExp && (scopeHB || scopeWC) && w.KnobBool("expiry_scenario", 25) {
+		// on its own: no other session presents tokens meanwhile
+		for i := 0; i < w.KnobPick("expiry_sessions", 1, 2); i++ {
+			adv++
+			expiryAttack()
+		}
+		w.SetSample(map[string]any{"scopes": scopes, "scenario": "expiry"})
+		w.Nontrivial()
+		return
+	}
 	honest := env.newClient("honest", 1)
 	if rr, err := honest.login(""); err != nil || mstr(rr, "error") != "" {
 		viol("login", "valid-token-refused", "login with a valid token of the configured issuer was refused: %v %v", err, rr)
@@ -192,12 +260,13 @@ func worldOIDC(w *World) {
 		return out
 	}
 	nattacks := w.KnobPick("nattacks", 4, 8, 16)
-	adv := 0
 	for i := 0; i < nattacks; i++ {
 		bads := mk()
 		b := bads[r.Intn(len(bads))]
 		adv++
-		switch r.Intn(4) {
+		switch r.Intn(5) {
+		case 4:
+			expiryAttack()
 		case 0, 1: // login with an invalid token
 			w.Check("C04.oidc-login-refused")
 			c := env.newClient(fmt.Sprintf("adv%d", adv), 0)
